@@ -36,6 +36,13 @@ import (
 )
 
 func init() {
+	if os.Getenv("VERIF_LOG") == "" {
+		// the audit logger is created with os.Stderr as its output at first use; run panics are
+		// written by the runtime to file descriptor 2 directly and stay visible
+		if devnull, err := os.OpenFile("/dev/null", os.O_WRONLY, 0); err == nil {
+			os.Stderr = devnull
+		}
+	}
 	seams.MessageOf = func(envelope interface{}) interface{} {
 		if e, ok := envelope.(*v2.Envelope); ok {
 			return e.Message
